@@ -856,7 +856,8 @@ def drv_select(case):
             P8 = pnd.ge_polyhedron_config(M_.astype(_np.int8), default_prio_vector=_np.array(P0_.default_prio_vector), variables=list(P0_.variables),
                                           index=list(P0_.index), dtype=_np.int8)
             lv3 = {lids_[0]: 3, lids_[1]: -2, lids_[-1]: 1} if len(lids_) > 2 else {lids_[0]: 3, lids_[1]: -2}
-            runs += [(P8, [lv3], "capture", False), (P8, [{lids_[-1]: 4, lids_[0]: -3}, {}], "capture", False)]
+            lvn = {i: (k + 1) * (-1 if k % 3 == 2 else 1) for k, i in enumerate(lids_[:7])}        # one level per item: the weights leave int8
+            runs += [(P8, [lv3], "capture", False), (P8, [{lids_[-1]: 4, lids_[0]: -3}, {}], "capture", False), (P8, [lvn], "capture", False)]
     except BaseException:
         pass
     for narrow, prios, mode, only_leafs in runs:
